@@ -782,7 +782,8 @@ def harnesses(tier):
 EXPECT = ["C03.copula.slice_coarse_values_are_running_sums_of_the_coupled_increments", "C03.coupled_dates_assembly_accepts_the_samplers_output", "C03.coupled_dates_coarse_value_is_last_cumulated_coupled_value", "C03.coarse_rate_preserved.1d", "C03.even_increment_copied_unchanged", "C03.odd_increment_moves_to_adjacent_coarse_state",
           "C03.transfer_probability_times_rate_is_half_cell_mass", "C03.coarse_diffusion_is_previous_fine", "C03.coarse_deterministic_path_is_previous_level",
           "C03.same_brownian_increments_drive_both", "C03.copula.transfer_probability_times_rate_is_subcell_mass",
-          "C03.copula.even_increment_copied_unchanged", "C03.copula.corner_probabilities_sum_to_one"]
+          "C03.copula.even_increment_copied_unchanged", "C03.copula.corner_probabilities_sum_to_one",
+          "C03.copula.odd_coordinates_move_to_adjacent_coarse_states"]
 
 
 # reference replays run when the symbolic run of a harness ends in an exception of the code under analysis (see runner.run_check)
